@@ -10,8 +10,11 @@ import re
 from ..gen import cells as G
 from ..gen import bocdags as D
 from .. import boc_strict as S
+from ..translate import arith
 
 SPEC = dict(
+    translators=[('cell.py to_boc widths->Generated/BocWidths.lean', arith.regenerator('BocWidths'))],
+    lean_targets=['TonVerif.Proofs.SrcBocWidths'],
     manifest=dict(
         category='proof',
         text='Lean proves THE PROPERTY for all inputs (c04_conforms): for every spec-valid tree of cells (ordinary, pruned, library, Merkle proof/update; any nesting and sharing; C02 TreeWF) whose exotic '
